@@ -87,6 +87,36 @@ def _later_supplied(draw):
     return spec
 
 
+@st.composite
+def _singles(draw):
+    """many one-residue molecules (their only residue is a start placement), optionally followed by a short chain,
+    on a user grid with few spare points: start points next to and on top of each other are drawn all the time"""
+    w = {"resname": "W", "atoms": [{"name": "w", "type": "TB", "mass": 72.0}], "bonds": [], "vs": None}
+    ra = {"resname": "RA", "atoms": [{"name": "a1", "type": "TA", "mass": 72.0}], "bonds": [], "vs": None}
+    n = draw(st.integers(10, 40))
+    length = draw(st.integers(2, 4))
+    sol = {"name": "SOL", "residues": [w], "res_edges": [], "shape": "linear"}
+    ma = {"name": "MA", "residues": [ra] * length, "res_edges": [[i, i + 1] for i in range(length - 1)], "shape": "linear"}
+    molecules = [["SOL", n]]
+    nchain = draw(st.integers(0, 2))
+    if nchain:
+        molecules.insert(draw(st.integers(0, 1)), ["MA", nchain])
+    sig_b = draw(st.sampled_from([0.3, 0.43, 0.47]))
+    spacing = draw(st.sampled_from([0.4, 0.5, 0.6] if sig_b == 0.3 else [0.55, 0.6, 0.7]))
+    per = 5
+    lattice = [[round(0.3 + spacing * i, 3), round(0.3 + spacing * j, 3), round(0.3 + spacing * k, 3)]
+               for i in range(per) for j in range(per) for k in range(per)]
+    npts = min(len(lattice), 3 * (n + nchain) + 10)
+    grid = list(draw(st.permutations(lattice)))[:npts]
+    edge = round(max(4.0, 0.6 + spacing * per + 0.6 * length), 1)
+    return {"rng": draw(st.integers(0, 2**31 - 1)), "comb": 2,
+            "atomtypes": [{"name": "TA", "mass": 72.0, "sigma": 0.47, "eps": 2.0},
+                          {"name": "TB", "mass": 72.0, "sigma": sig_b, "eps": 2.0}],
+            "moltypes": [ma, sol], "molecules": molecules,
+            "opts": {"box": [edge, edge, edge], "max_force": draw(st.sampled_from([1e3, 1e4, 5e4])), "grid": grid},
+            "build": None, "coords": None, "singles": True}
+
+
 def _fill(spec):
     """coordinates of the spec["fill"] supplied beads: a 0.5 nm lattice filled layer by layer from z = 0"""
     n = spec["fill"]
@@ -128,6 +158,8 @@ def _strategy(draw):
         return draw(_contrast())
     if draw(st.integers(0, 11)) == 0:
         return draw(_later_supplied())
+    if draw(st.integers(0, 11)) == 0:
+        return draw(_singles())
     if draw(st.integers(0, 39)) == 0:
         return draw(_large())
     spec = draw(gc.system(max_res=8, max_total_mol=5, variants=True))
@@ -187,6 +219,8 @@ def check(spec, ctx):
     if spec.get("fill"):
         spec = _fill(spec)
         ctx.label("second_neighbour_tree")
+    elif spec.get("singles"):
+        ctx.label("many_one_residue_molecules")
     elif spec.get("later_supplied"):
         ctx.label("built_molecules_listed_before_supplied_ones")
     elif spec.get("coords"):
@@ -266,7 +300,7 @@ def check(spec, ctx):
         if float(np.linalg.norm(total)) > max_force * (1 + 1e-9):
             raise Violation("force_above_limit", f"residue ({mol_idx},{node}) accepted with |F|={np.linalg.norm(total):.4g} > {max_force}")
 
-    res = gc.run_gen_coords(spec, ctx, on_add=on_add, timeout=60 if spec.get("fill") else 15)
+    res = gc.run_gen_coords(spec, ctx, on_add=on_add, timeout=60 if spec.get("fill") else (8 if spec.get("singles") else 15))
     if res.exc is not None:
         if isinstance(res.exc, Violation):
             raise res.exc
